@@ -87,3 +87,40 @@ Proof.
       apply IH. assumption. }
     destruct (convert_cells_table_keys _ _ _ _ _ _ _ _ Hrun k Hdef) as [H1|H1]; [contradiction|lia].
 Qed.
+
+(* ---- with C09: normalize_float -------------------------------------------------------------- *)
+From T4V Require Import C08.LinkC09.
+
+Record stage0_rest4 (cnt0 : Z) (todo : list Z) (w : wstate (spayload R)) : Prop := mk_stage0_rest4 {
+  s4_nonempty : w_vols w <> [];
+  s4_skipped : forall k, In k (w_skipped w) -> (k <= cnt0)%Z /\ ~ In k todo;
+  s4_cells : forall k v, In (k, v) (w_vols w) -> v_fictive v = false ->
+             exists c, lookup (vol_cell_id k v) (w_cells w) = Some c /\ cell_named w c;
+  (* the density fields come from C09's normalize_float *)
+  s4_density : forall cid c, In (cid, c) (w_cells w) -> density_from_c09 c;
+  s4_words : words_ok w }.
+
+Theorem convert_wf_all_linked :
+  forall (A : Type) (dic : list (Z * list (A * Z))) num mat
+         (surfs0 : stable (spayload R)) fuel cells u0 u1 todo cnt0 s' skip_dedup (w : wstate (spayload R)),
+  M2.number_items dic = M2.Ok (num, mat) ->
+  (forall k, In k (P2.keys dic) -> (0 < k)%Z) -> NoDup (P2.keys dic) ->
+  Forall (fun kv => P2.unit_sides (snd kv)) dic ->
+  keys surfs0 = map fst num -> (exists k, In k (keys surfs0) /\ (0 < k)%Z) ->
+  insert_helpers surfs0 (helper_plane "1" 1%R) (helper_plane "-1" (-1)%R) = Ok (w_surfs w, u0, u1) ->
+  M1.convert_cells fuel cells mat u0 u1 todo (M1.mkSt cnt0 [] [] []) = M1.Ok s' ->
+  w_vols w = tr_table (M1.vols s') ->
+  stage0_rest4 cnt0 todo w ->
+  exists o, convert_tail Req_payload skip_dedup u0 u1 w = Ok o /\
+    (o = Died false [] EValue \/
+     exists f, (o = Complete f \/ exists e, o = Raised f e) /\
+               wf_file f /\ parse_t4 (print_t4 f) = Some f /\
+               forall finite : string -> Prop,
+                 Forall finite (state_numbers w) -> Forall finite (file_numbers f)).
+Proof.
+  intros A dic num mat surfs0 fuel cells u0 u1 todo cnt0 s' skip_dedup w
+         Hnum Hpos Hnd Hu Hkeys Hkp Hins Hrun Hv [Hne Hsk Hc Hd Hw].
+  eapply (convert_wf_full_linked A dic num mat surfs0 fuel cells u0 u1 todo cnt0 s' skip_dedup w); try eassumption.
+  constructor; try assumption.
+  intros cid c Hin. apply norm_fixed_linked. eapply Hd; eassumption.
+Qed.
